@@ -204,6 +204,22 @@ func c07Carriers(res *engine.Result, sec *ref.PATSection, cc byte, allPIDs bool)
 			c07Verify(res, "packet+af-stuffing", cls, pat, &m, probes[:3], false)
 		}
 	}
+	// header bits of the PAT packet that have nothing to do with the table: transport_priority, scrambling
+	// control 10 / 11, transport_error_indicator
+	for hv, bits := range [...][2]byte{{0x20, 0x00}, {0x00, 0x80}, {0x20, 0xC0}, {0x80, 0x00}} {
+		pk := pk1
+		pk[1] |= bits[0]
+		pk[3] |= bits[1]
+		name := "packet+header-bits-" + string(rune('a'+hv))
+		if pat := newPAT(name, pk[:]); pat != nil {
+			c07Verify(res, name, cls, pat, &m, probes[:3], false)
+		}
+		if pat, err := psi.ReadPAT(bytes.NewReader(pk[:])); err != nil || pat == nil {
+			res.Failf("stream-1-"+name+"|"+cls+"|ReadPAT-error", "ReadPAT on a single PAT packet with header % x: %v", pk[:4], err)
+		} else {
+			c07Verify(res, "stream-1-"+name, cls, pat, &m, probes[:3], false)
+		}
+	}
 	// the shortest adaptation fields in front of the section: adaptation_field_length 0 (one stuffing byte,
 	// no flags byte) and 1 (flags byte only)
 	for _, L := range [...]int{183, 182} {
@@ -227,6 +243,54 @@ func c07Carriers(res *engine.Result, sec *ref.PATSection, cc byte, allPIDs bool)
 	} else {
 		c07Verify(res, "stream-1-packet", cls, pat, &m, probes[:3], false)
 	}
+}
+
+// ---- scenario "foreign-packet-headers" ------------------------------------------------------------------
+
+type c07ForeignCase struct {
+	Byte3 int `json:"byte3"`
+}
+
+// "preceded by ANY packets of other PIDs": every value of header byte 3 x 5 byte-1 flag patterns x 8 PIDs
+// (1..3, 4, 0xF, 0x10, 0x1FFE, null) on the packets in front of the PAT packet; and a stream of such packets
+// only, which must end with the not-found error
+func c07CheckForeign(c c07ForeignCase) engine.Result {
+	var res engine.Result
+	sec := ref.PATSection{TSID: 0x0102, Version: 3, CurrentNext: true, Entries: []ref.PATEntry{{Program: 1, PID: 0x100, Reserved: 7}, {Program: 2, PID: 0x1FFE, Reserved: 7}}}
+	m := sec.Model()
+	var pb [48]int
+	probes := c07Probes(sec.Entries, pb[:0])
+	payload := append(ref.Pointer(0), sec.Bytes()...)
+	pat := ref.CarryPayload(0, true, 5, ref.PadPayload(payload, 184))
+	for _, flags := range [...]byte{0x00, 0x20, 0x40, 0x80, 0xE0} {
+		for _, fp := range [...]int{1, 2, 3, 4, 0xF, 0x10, 0x1FFE, 0x1FFF} {
+			var f [188]byte
+			for i := range f {
+				f[i] = byte(0x20 + i%0x5F)
+			}
+			f[0], f[1], f[2], f[3] = 0x47, flags|byte(fp>>8), byte(fp), byte(c.Byte3)
+			stream := append(append(append([]byte{}, f[:]...), f[:]...), pat[:]...)
+			res.Nontrivial++
+			res.Evals++
+			engine.Guard(&res, "foreign-packet-headers|ReadPAT", func() {
+				got, err := psi.ReadPAT(bytes.NewReader(stream))
+				if err != nil || got == nil {
+					res.Failf("foreign-packet-headers|ReadPAT|error", "two packets of PID %#x with header % x in front of the PAT packet: %v", fp, f[:4], err)
+				} else {
+					c07Verify(&res, "foreign-packet-headers", "multi-program", got, &m, probes[:3], false)
+				}
+				got, err = psi.ReadPAT(bytes.NewReader(stream[:376]))
+				if err != gots.ErrPATNotFound || got != nil {
+					res.Failf("foreign-packet-headers|ReadPAT|no-PAT|error", "a stream of two packets of PID %#x with header % x: err=%v, want the not-found error", fp, f[:4], err)
+				}
+			})
+			if len(res.Fail) > 6 {
+				return res
+			}
+		}
+	}
+	res.Outcome(c.Byte3 >> 4)
+	return res
 }
 
 // ---- scenario "sections": full product of small sections -------------------------------------
@@ -968,6 +1032,16 @@ func init() {
 					}
 				},
 				Check: c07CheckNest, Batch: 4,
+			},
+			&engine.Enum[c07ForeignCase]{
+				Name: "foreign-packet-headers",
+				Rule: "packets of other PIDs (1, 2, 3, 4, 0xF, 0x10, 0x1FFE, the null PID) in front of the PAT packet with EVERY value of header byte 3 x byte-1 flags {none, priority, unit start, error indicator, all}: ReadPAT returns exactly the table; the same packets without a PAT packet behind them: the not-found error",
+				Gen: func(r *engine.Run, emit func(c07ForeignCase)) {
+					for b := 0; b < 256; b++ {
+						emit(c07ForeignCase{b})
+					}
+				},
+				Check: c07CheckForeign, Batch: 4,
 			},
 			&engine.Enum[c07NilCase]{
 				Name: "nil-pat",
